@@ -485,11 +485,12 @@ Proof.
     + (* directory *)
       change (N.eqb 1 0) with false. change (N.eqb 1 1) with true. cbv iota.
       intros H. eapply good_trans; [exact G1|]. eapply good_create_dir_all; [exact (proj1 G1)|exact OK|exact H].
-  - intros f2 G2 f3 ok3.
-    pose proof (good_apply_perm o e f2 comps (proj1 G2) P) as GP.
-    assert (G' : good f (apply_perm o e f2 (out ++ comps))) by (eapply good_trans; eassumption).
-    destruct (o_keep_xattr o); [|intros [= <- <-]; exact G'].
-    intros H. eapply good_trans; [exact G'|]. eapply good_lset_xattrs; [exact (proj1 G')|exact P|exact H].
+  - (* extended attributes, then owner + mode *)
+    intros f2 G2 f3 ok3. apply good_andthen.
+    + intros f4 ok4. destruct (o_keep_xattr o); [|intros [= <- <-]; exact G2].
+      intros H. eapply good_trans; [exact G2|]. eapply good_lset_xattrs; [exact (proj1 G2)|exact P|exact H].
+    + intros f4 G4 f5 ok5 [= <- <-].
+      eapply good_trans; [exact G4|]. exact (good_apply_perm o e f4 comps (proj1 G4) P).
 Qed.
 
 Lemma good_extract_each o : forall es f ok0 f' ok,
